@@ -28,11 +28,18 @@ import (
 // run, and every process of the retry sees exactly the parameter values the
 // processes of the recorded run saw (nothing missing, nothing added).
 
-var cliParamNames = map[string]bool{"A": true, "B": true, "K": true, "T": true, "D": true, "E": true}
+var cliParamNames = map[string]bool{"A": true, "B": true, "K": true, "T": true, "D": true, "E": true, "OUTV": true, "TAG": true}
+
+// what the always-succeeding first step prints into its output variable
+var outvPool = []string{"tok=abc123==", "plain", "two words", "k=v", "", "x==y"}
 
 func cliYAML(c *sim.Case, work, stepper, defaults string, changed bool) string {
-	var steps []any
+	// vp_prod always succeeds and captures an output variable; every other step
+	// runs after it (and so sees the variable); TAG is an env: entry computed by
+	// a command when the definition is loaded
+	steps := []any{yaml.MapSlice{{Key: "name", Value: "vp_prod"}, {Key: "command", Value: "cat " + work + "/outv.txt"}, {Key: "output", Value: "OUTV"}}}
 	for _, s := range c.Steps {
+		s.Depends = append(append([]string(nil), s.Depends...), "vp_prod")
 		k := 0
 		if s.FailFirst != 0 {
 			k = 1
@@ -57,7 +64,7 @@ func cliYAML(c *sim.Case, work, stepper, defaults string, changed bool) string {
 		}
 		steps = append(steps, m)
 	}
-	def := yaml.MapSlice{{Key: "params", Value: defaults}, {Key: "steps", Value: steps}}
+	def := yaml.MapSlice{{Key: "env", Value: []any{map[string]string{"TAG": "`cat " + work + "/tag.txt`"}}}, {Key: "params", Value: defaults}, {Key: "steps", Value: steps}}
 	b, _ := yaml.Marshal(def)
 	return string(b)
 }
@@ -97,6 +104,8 @@ func checkCLI(t rep.Fataler, c AgentCase) {
 	os.MkdirAll(work, 0o755)
 	const defaults = "d1 d2 D=default E=other"
 	params := paramPool[c.Params%len(paramPool)]
+	os.WriteFile(filepath.Join(work, "outv.txt"), []byte(outvPool[(c.Params+c.Edit)%len(outvPool)]+"\n"), 0o644)
+	os.WriteFile(filepath.Join(work, "tag.txt"), []byte("run-A\n"), 0o644)
 	file, err := h.WriteDAG("c10cli", cliYAML(&c.Dag, work, stepper, defaults, false))
 	if err != nil {
 		t.Fatalf("write: %v", err)
@@ -235,6 +244,11 @@ func checkCLI(t rep.Fataler, c AgentCase) {
 		editNote = "all dependencies removed"
 	}
 	os.WriteFile(file, []byte(cliYAML(&edited, work, stepper, defaults, c.Edit == 1)), 0o644)
+	// what the env: entry evaluates to has changed by the time of the retry, and
+	// so has what the producer would print: the retry runs the RECORDED steps
+	// with the recorded variables and the recorded output
+	os.WriteFile(filepath.Join(work, "tag.txt"), []byte("run-B\n"), 0o644)
+	os.WriteFile(filepath.Join(work, "outv.txt"), []byte("printed-only-if-the-producer-ran-again\n"), 0o644)
 
 	out, err = runCLI("retry", "--req="+id1, file)
 	if err != nil && err.Error() == "timeout" {
